@@ -422,11 +422,12 @@ func (k *KLMMon) Put(key local.Key, loc local.Location) error {
 // and remembers the last channels handed out.
 type SourceMon struct {
 	local.PersistentStateSource
-	mu        sync.Mutex
-	LastPutCh <-chan struct{}
-	LastRelCh <-chan struct{}
-	Calls     []string
-	OnCall    func(name string)
+	mu                     sync.Mutex
+	LastPutCh              <-chan struct{}
+	LastRelCh              <-chan struct{}
+	PutChCalls, RelChCalls int
+	Calls                  []string
+	OnCall                 func(name string)
 }
 
 func (s *SourceMon) note(n string) {
@@ -443,6 +444,7 @@ func (s *SourceMon) GetBlockReleaseWakeup() <-chan struct{} {
 	ch := s.PersistentStateSource.GetBlockReleaseWakeup()
 	s.mu.Lock()
 	s.LastRelCh = ch
+	s.RelChCalls++
 	s.mu.Unlock()
 	return ch
 }
@@ -451,6 +453,7 @@ func (s *SourceMon) GetBlockPutWakeup() <-chan struct{} {
 	ch := s.PersistentStateSource.GetBlockPutWakeup()
 	s.mu.Lock()
 	s.LastPutCh = ch
+	s.PutChCalls++
 	s.mu.Unlock()
 	return ch
 }
@@ -477,6 +480,20 @@ func (s *SourceMon) GetPersistentState() (uint32, []*pb.BlockState) {
 func (s *SourceMon) NotifyPersistentStateWritten() {
 	s.note("PersistentStateWritten")
 	s.PersistentStateSource.NotifyPersistentStateWritten()
+}
+
+// ChCalls returns how often the wake-up channels were fetched.
+func (s *SourceMon) ChCalls() (put, rel int) {
+	s.mu.Lock()
+	defer s.mu.Unlock()
+	return s.PutChCalls, s.RelChCalls
+}
+
+// LastChannels returns the channels handed out last.
+func (s *SourceMon) LastChannels() (put, rel <-chan struct{}) {
+	s.mu.Lock()
+	defer s.mu.Unlock()
+	return s.LastPutCh, s.LastRelCh
 }
 
 // StoreMon wraps the PersistentStateStore: gate at entry, mutual
